@@ -10,6 +10,7 @@ import MC.Spec.BrailleFinal
 import MC.Model.Numbers
 import MC.Spec.Rows
 import MC.Spec.Canon
+import MC.Model.Speech
 open Lean
 
 namespace MC.Driver
@@ -272,7 +273,20 @@ def handleCanon (op : String) (req : Json) : Option Json :=
     some <| okJ <| Json.arr ((MC.Spec.Canon.allIds r).map fun i => match i with | some x => toJson (ofCps x) | none => Json.null).toArray
   | _ => none
 
-def handlers : List (String → Json → Option Json) := [handleVariant, handlePreproc, handlePrefs, handleNav, handleTts, handleIntent, handleHighlight, handleBrailleFinal, handleNumbers, handleRows, handleCanon]
+def handleSpeech (op : String) (req : Json) : Option Json :=
+  match op with
+  | "speech_join" =>
+    let pf := ((req.getObjVal? "pf").toOption.bind (·.getNat?.toOption)).getD 100
+    let xs := (arrOf req "inputs").toList.map fun j => cps (j.getStr?.toOption.getD "")
+    some <| okJ <| Json.mkObj [("out", toJson (ofCps (MC.Speech.joinArray pf xs))),
+      ("panic", toJson (xs.any MC.Speech.wouldPanic)),
+      ("auto_ok", toJson (xs.all MC.Speech.autoOkB)),
+      ("front_clean", toJson (xs.all (MC.Speech.frontCleanB MC.Speech.isDigit))),
+      ("dropped", Json.arr ((List.zip xs (MC.Speech.dedupe xs)).filterMap (fun p => if p.1 = p.2 then none else some (Json.arr #[toJson (ofCps p.1), toJson (ofCps p.2)]))).toArray)]
+  | "speech_final" => some <| okJ <| toJson (ofCps (MC.Speech.finalize (cps (getStr req "s"))))
+  | _ => none
+
+def handlers : List (String → Json → Option Json) := [handleVariant, handlePreproc, handlePrefs, handleNav, handleTts, handleIntent, handleHighlight, handleBrailleFinal, handleNumbers, handleRows, handleCanon, handleSpeech]
 
 def handle (req : Json) : Json :=
   let op := getStr req "op"
